@@ -144,14 +144,32 @@ Definition cmd_name (parts : list frame) : bytes :=
 
 Ltac same_dbs := intros; repeat split; intros; reflexivity.
 
+(** ---- the lazy expiry step only touches the selected database and its tracker ---- *)
+Lemma lazy_expire_rest now s dbi name parts :
+  s_conns (lazy_expire now s dbi name parts) = s_conns s /\
+  s_password (lazy_expire now s dbi name parts) = s_password s /\
+  s_aof (lazy_expire now s dbi name parts) = s_aof s /\
+  s_pubsub (lazy_expire now s dbi name parts) = s_pubsub s.
+Proof.
+  unfold lazy_expire. destruct lazy_expiry_before_dispatch; [|repeat split; reflexivity].
+  destruct (expire_before now (get_db s dbi) name parts) as [d1 removed]. repeat split; reflexivity.
+Qed.
+Lemma lazy_expire_frame now s dbi name parts j :
+  0 <= dbi -> 0 <= j -> j <> dbi -> get_db (lazy_expire now s dbi name parts) j = get_db s j.
+Proof.
+  intros Hd Hj Hn. unfold lazy_expire. destruct lazy_expiry_before_dispatch; [|reflexivity].
+  destruct (expire_before now (get_db s dbi) name parts) as [d1 removed].
+  rewrite get_db_set_trk. apply get_db_set_db_other; lia.
+Qed.
+
 (** a command run against database [dbi] leaves every other database untouched,
     FLUSHALL excepted *)
-Lemma normal_command_frame now s c dbi parts oracle r s' :
-  normal_command now s c dbi parts oracle = (r, s') ->
+Lemma dispatch_command_frame now s c dbi parts oracle r s' :
+  dispatch_command now s c dbi parts oracle = (r, s') ->
   beq (cmd_name parts) (bs "FLUSHALL") = false -> 0 <= dbi ->
   forall j, 0 <= j -> j <> dbi -> get_db s' j = get_db s j.
 Proof.
-  unfold normal_command, cmd_name. intros H Hf Hd j Hj Hn.
+  unfold dispatch_command, cmd_name. intros H Hf Hd j Hj Hn.
   destruct parts as [|first rest]; [inversion H; subst; reflexivity|].
   destruct first; try (inversion H; subst; reflexivity).
   set (s0 := if mem_name (upper b) write_commands then log_aof_in s dbi (FBulk b :: rest) else s) in *.
@@ -176,6 +194,16 @@ Proof.
     inversion H; subst; [|reflexivity].
   rewrite get_db_set_trk. apply get_db_set_db_other; lia.
 Qed.
+Lemma normal_command_frame now s c dbi parts oracle r s' :
+  normal_command now s c dbi parts oracle = (r, s') ->
+  beq (cmd_name parts) (bs "FLUSHALL") = false -> 0 <= dbi ->
+  forall j, 0 <= j -> j <> dbi -> get_db s' j = get_db s j.
+Proof.
+  unfold normal_command. intros H Hf Hd j Hj Hn.
+  destruct parts as [|first rest]; [inversion H; subst; reflexivity|].
+  destruct first; try (inversion H; subst; reflexivity).
+  rewrite (dispatch_command_frame _ _ _ _ _ _ _ _ H Hf Hd j Hj Hn). apply lazy_expire_frame; assumption.
+Qed.
 
 (** the queued commands of an EXEC are all run against the one database *)
 Lemma exec_queue_frame now dbi : forall q s acc reps s',
@@ -194,7 +222,8 @@ Qed.
     a valid one changes the issuing connection's selection only *)
 Lemma select_spec now s c dbi a oracle cn :
   zlookup c (s_conns s) = Some cn ->
-  let s0 := if mem_name (bs "SELECT") write_commands then log_aof_in s dbi [FBulk (bs "SELECT"); FBulk a] else s in
+  let s1 := lazy_expire now s dbi (bs "SELECT") [FBulk (bs "SELECT"); FBulk a] in
+  let s0 := if mem_name (bs "SELECT") write_commands then log_aof_in s1 dbi [FBulk (bs "SELECT"); FBulk a] else s1 in
   normal_command now s c dbi [FBulk (bs "SELECT"); FBulk a] oracle =
     match parse_usize a with
     | Some n => if 16 <=? n then (r_err, s0)
@@ -204,13 +233,15 @@ Lemma select_spec now s c dbi a oracle cn :
     | None => (r_err, s0)
     end.
 Proof.
-  intros Hc s0. unfold normal_command.
+  intros Hc s1 s0. unfold normal_command, dispatch_command.
   change (upper (bs "SELECT")) with (bs "SELECT").
   change (beq (bs "SELECT") (bs "PING")) with false. change (beq (bs "SELECT") (bs "ECHO")) with false.
   change (beq (bs "SELECT") (bs "SELECT")) with true. cbv iota.
-  fold s0. destruct (parse_usize a); [|reflexivity]. destruct (16 <=? z); [reflexivity|].
+  fold s1. fold s0. destruct (parse_usize a); [|reflexivity]. destruct (16 <=? z); [reflexivity|].
   assert (Hc0 : zlookup c (s_conns s0) = Some cn).
-  { unfold s0. destruct (mem_name (bs "SELECT") write_commands); [unfold log_aof_in; destruct (same_db _ _)|]; exact Hc. }
+  { unfold s0. destruct (mem_name (bs "SELECT") write_commands);
+      [unfold log_aof_in; destruct (same_db _ _)|]; cbn [log_aof s_conns];
+      unfold s1; rewrite (proj1 (lazy_expire_rest _ _ _ _ _)); exact Hc. }
   rewrite Hc0. reflexivity.
 Qed.
 Lemma select_not_logged : mem_name (bs "SELECT") write_commands = false.
@@ -223,7 +254,7 @@ Lemma conn_id_irrelevant now s c dbi parts oracle :
   beq (cmd_name parts) (bs "SELECT") = false ->
   normal_command now s c dbi parts oracle = normal_command now s 0 dbi parts oracle.
 Proof.
-  unfold normal_command, cmd_name. intros Hs.
+  unfold normal_command, dispatch_command, cmd_name. intros Hs.
   destruct parts as [|first rest]; [reflexivity|]. destruct first; try reflexivity.
   rewrite Hs. reflexivity.
 Qed.
@@ -307,11 +338,11 @@ Lemma exec_spec now s c cn :
 Proof. intros Hi. unfold h_exec. rewrite Hi. reflexivity. Qed.
 
 (** a frame of connection [c] never touches another connection's record *)
-Lemma normal_command_conns now s c dbi parts oracle r s' :
-  normal_command now s c dbi parts oracle = (r, s') ->
+Lemma dispatch_command_conns now s c dbi parts oracle r s' :
+  dispatch_command now s c dbi parts oracle = (r, s') ->
   forall c', c' <> c -> c' <> 0 -> zlookup c' (s_conns s') = zlookup c' (s_conns s).
 Proof.
-  unfold normal_command. intros H c' Hn H0.
+  unfold dispatch_command. intros H c' Hn H0.
   destruct parts as [|first rest]; [inversion H; subst; reflexivity|].
   destruct first; try (inversion H; subst; reflexivity).
   set (s0 := if mem_name (upper b) write_commands then log_aof_in s dbi (FBulk b :: rest) else s) in *.
@@ -336,6 +367,16 @@ Proof.
   destruct (beq (upper b) (bs "VERIF")); [inversion H; subst; reflexivity|].
   destruct (exec_db now (get_db s0 dbi) (upper b) (FBulk b :: rest) oracle) as [[r0 d']|];
     inversion H; subst; reflexivity.
+Qed.
+Lemma normal_command_conns now s c dbi parts oracle r s' :
+  normal_command now s c dbi parts oracle = (r, s') ->
+  forall c', c' <> c -> c' <> 0 -> zlookup c' (s_conns s') = zlookup c' (s_conns s).
+Proof.
+  unfold normal_command. intros H c' Hn H0.
+  destruct parts as [|first rest]; [inversion H; subst; reflexivity|].
+  destruct first; try (inversion H; subst; reflexivity).
+  rewrite (dispatch_command_conns _ _ _ _ _ _ _ _ H c' Hn H0).
+  rewrite (proj1 (lazy_expire_rest _ _ _ _ _)). reflexivity.
 Qed.
 
 (** ================= C08: the WATCH tracker ================= *)
@@ -575,15 +616,11 @@ Proof.
   apply conn_id_irrelevant. unfold cmd_name. exact Hsel.
 Qed.
 
-Lemma normal_command_0_keeps now s dbi parts r s' c cn :
-  normal_command now s 0 dbi parts None = (r, s') -> c <> 0 ->
-  zlookup c (s_conns s) = Some cn ->
-  zlookup c (s_conns s') = Some cn /\ s_password s' = s_password s.
+Lemma dispatch_command_password now s c dbi parts r s' :
+  dispatch_command now s c dbi parts None = (r, s') -> s_password s' = s_password s.
 Proof.
-  intros H Hc Hz. split.
-  - rewrite (normal_command_conns now s 0 dbi parts None r s' H c Hc Hc). exact Hz.
-  - (* the password is never changed by a command *)
-    revert H. unfold normal_command.
+  intros H.
+    revert H. unfold dispatch_command.
     destruct parts as [|first rest]; [intros H; inversion H; reflexivity|].
     destruct first; try (intros H; inversion H; reflexivity).
     set (s0 := if mem_name (upper b) write_commands then log_aof_in s dbi (FBulk b :: rest) else s).
@@ -597,7 +634,7 @@ Proof.
       destruct a; try (intros H; inversion H; reflexivity).
       destruct (parse_usize b0); [|intros H; inversion H; reflexivity].
       destruct (16 <=? z); [intros H; inversion H; reflexivity|].
-      destruct (zlookup 0 (s_conns s0)); intros H; inversion H; reflexivity. }
+      destruct (zlookup c (s_conns s0)); intros H; inversion H; reflexivity. }
     destruct (beq (upper b) (bs "FLUSHALL")).
     { destruct (negb (len (FBulk b :: rest) =? 1)); intros H; inversion H; reflexivity. }
     destruct (beq (upper b) (bs "RANDOMKEY")); [intros H; inversion H; reflexivity|].
@@ -607,6 +644,19 @@ Proof.
     destruct (beq (upper b) (bs "VERIF")); [intros H; inversion H; reflexivity|].
     destruct (exec_db now (get_db s0 dbi) (upper b) (FBulk b :: rest) None) as [[r0 d']|];
       intros H; inversion H; reflexivity.
+Qed.
+Lemma normal_command_0_keeps now s dbi parts r s' c cn :
+  normal_command now s 0 dbi parts None = (r, s') -> c <> 0 ->
+  zlookup c (s_conns s) = Some cn ->
+  zlookup c (s_conns s') = Some cn /\ s_password s' = s_password s.
+Proof.
+  intros H Hc Hz. split.
+  - rewrite (normal_command_conns now s 0 dbi parts None r s' H c Hc Hc). exact Hz.
+  - revert H. unfold normal_command.
+    destruct parts as [|first rest]; [intros H; inversion H; reflexivity|].
+    destruct first; try (intros H; inversion H; reflexivity).
+    intros H. rewrite (dispatch_command_password _ _ _ _ _ _ _ H).
+    apply (proj1 (proj2 (lazy_expire_rest _ _ _ _ _))).
 Qed.
 
 (** EXEC runs exactly what the connection would get by sending the queued commands one
